@@ -55,6 +55,9 @@ def c05_batches(tier):
     for spec in ("P128", "P80"):
         bs.append(B("io-%s-spqlios-fma-optim" % spec, "io", "spqlios-fma", "optim", 3 if q else 24, spec=spec, nkeys=1, maxobj=4, weight=80 if q else 400,
                     det_count=1, max_procs=3))
+        for kind in ("CloudKeySet", "SecretKeySet"):
+            bs.append(B("io-%s-%s" % (spec, kind), "io", "spqlios-fma" if kind == "CloudKeySet" else "fftw", "optim", 1 if q else 6, spec=spec, nkeys=1, maxobj=1,
+                        kind=kind, weight=80 if q else 300, det_count=1, max_procs=2))
         bs.append(B("restart-%s-spqlios-fma-optim" % spec, "gates", "spqlios-fma", "optim", 3 if q else 40, spec=spec, nkeys=1, mode="netlist",
                     gates=8, pfault=1.0, stats=0, weight=80 if q else 400, det_count=1, max_procs=3))
         if not q:
@@ -360,6 +363,8 @@ def c16_batches(tier):
             extra = {"Bmax": 10} if (var.startswith("debug") and be.startswith("nayuki")) else {}
             # life cycles over the whole configuration matrix (small dimensions: many short runs)
             bs.append(B("life-small-%s-%s" % (be, var), "life", be, var, (60 if q else 1500) * slow, maxn=9, nops=12, weight=30 if q else 300, max_procs=3, **extra))
+            # every run in its own short-lived thread, the main thread never touches the library (thread create/exit histories)
+            bs.append(B("life-threads-%s-%s" % (be, var), "life", be, var, (24 if q else 600) * slow, maxn=9, nops=8, threadrun=1, weight=20 if q else 200, max_procs=2, **extra))
             # large dimensions incl. n > N (memory heavy: few runs)
             bs.append(B("life-large-%s-%s" % (be, var), "life", be, var, (4 if q else 60) * slow, nops=6, membudget=120e6, weight=60 if q else 300, max_procs=2, det_count=1, **extra))
             if var == "optim-asan" or not q:
